@@ -38,7 +38,7 @@ RELEVANT = {
     "duplicate-accepted": {"duplicate"},
 }
 
-ACTIONS = ["EnterClassDefinition", "EnterElementList", "ExitElementList", "EnterComponentClause", "EnterComponentDeclaration",
+ACTIONS = ["EnterClassDefinition", "ExitClassSpecBase", "EnterElementList", "ExitElementList", "EnterComponentClause", "EnterComponentDeclaration",
            "EnterDeclaration", "EnterElementModification", "ExitDeclaration", "ExitComponentDeclaration", "ExitComponentClause",
            "EnterExtendsClause", "ExitExtendsClause", "ExitImportClause", "ExitEquationSection", "ExitAlgorithmSection",
            "ExitComposition", "ExitClassSpec", "ExitClassDefinition"]
@@ -86,6 +86,8 @@ def annotate(decl, expect):
                     c["_not_last_of_kind"] = last_of[s["vis"]] != i
             elif el["k"] == "class":
                 annotate(el["c"], next(nested))
+            elif el["k"] == "short":
+                next(nested)
 
 
 def vis_ok(want, got):
